@@ -137,16 +137,16 @@ def _generate_next_n(cls):
     return run
 
 
-harness('c06.generate_next_n[generator]', ['C06', 'C12'], functions=[SFG + '._generate_next_n'],
+harness('c06.generate_next_n[generator]', ['C06', 'C12', 'C07', 'C08'], functions=[SFG + '._generate_next_n'],
         assumptions=['async_range used through its contract (c06.async_range)', 'the application generator is abstract'])(_generate_next_n(SFG))
-harness('c06.generate_next_n[async-generator]', ['C06', 'C12'], functions=[SFA + '._generate_next_n'],
+harness('c06.generate_next_n[async-generator]', ['C06', 'C12', 'C07', 'C08'], functions=[SFA + '._generate_next_n'],
         assumptions=['async_range used through its contract (c06.async_range)', 'the application generator is abstract'])(_generate_next_n(SFA))
 
 
 QNN = SFG + '.queue_next_n'
 
 
-@harness('c06.queue_next_n', ['C06', 'C12'], functions=[QNN, SFG + '._start_generator'],
+@harness('c06.queue_next_n', ['C06', 'C12', 'C07', 'C08'], functions=[QNN, SFG + '._start_generator'],
          assumptions=['_generate_next_n(n) used through its contract: yields at most n elements (c06.generate_next_n); modelled here by a '
                       'generic batch of 0..2 elements', 'asyncio.Queue modelled as FIFO'])
 def queue_next_n(E):
@@ -226,7 +226,7 @@ class GenStub:
 FS = SFG + '.feed_subscriber'
 
 
-@harness('c06.feed_subscriber', ['C06', 'C01', 'C07'], functions=[FS, SFG + '._send_to_subscriber', SFG + '._cancel_n_feeder'],
+@harness('c06.feed_subscriber', ['C06', 'C01', 'C07', 'C08'], functions=[FS, SFG + '._send_to_subscriber', SFG + '._cancel_n_feeder'],
          assumptions=['asyncio.Queue modelled as FIFO; sleep is a suspension point'])
 def feed_subscriber(E):
     src, factory = mk_source(E)
